@@ -15,8 +15,8 @@
 //!   avro-snappy-alloc       Avro OCF snappy block: allocation of the declared decompressed length
 //!   avro-ocf-hang           Avro OCF Reader spins when a block's count is smaller than its data
 //!
-//! The allocation cases install a guard allocator that ends the process with a message when a single
-//! request exceeds 1 GiB (otherwise the machine's memory decides whether they abort or succeed).
+//! A guard allocator ends the process (or the probe child) with a message when a single request exceeds
+//! 65 MiB (otherwise the machine's memory decides whether such a request aborts or succeeds).
 use arrow_array::*;
 use arrow_schema::*;
 use std::alloc::{GlobalAlloc, Layout, System};
@@ -169,7 +169,8 @@ fn probe(name: &str, bytes: &[u8], read: &Read) {
                 n_ok += 1;
                 continue;
             } else {
-                line[2.min(line.len())..].to_string()
+                // one class per message shape (sizes and indices vary from flip to flip)
+                line[2.min(line.len())..].chars().filter(|c| !c.is_ascii_digit()).collect()
             };
             classes.entry(class).and_modify(|e| e.2 += 1).or_insert((p, bit, 1));
         }
